@@ -1,5 +1,6 @@
 """Frame condition for history independence: a call must leave the module-level mutable state of the package unchanged.
 
+State = module-level mutable containers, mutable default arguments of functions and methods, and the size of functools caches.
 If every explored path of every entry point satisfies it, the outputs of a call cannot depend on the calls made before it in the same
 process (induction over the call history: the state any call starts from is the import-time state)."""
 import sys
@@ -21,13 +22,55 @@ def _safe(v):
         return f"<unprintable {type(v).__name__}: {type(e).__name__}>"
 
 
+_MUT = (dict, list, set, bytearray)
+
+
+class _CacheSize:
+    """functools cache of a module-level function: only its size is observable"""
+    def __init__(self, f):
+        self.f = f
+
+    def __repr__(self):
+        try:
+            return "cache(currsize=%d)" % self.f.cache_info().currsize
+        except Exception:  # noqa: BLE001
+            return "cache(?)"
+
+
+def _function_state(name, f, out):
+    if hasattr(f, "cache_info"):
+        out[name + ":cache"] = _CacheSize(f)
+        f = getattr(f, "__wrapped__", None)
+        if f is None:
+            return
+    for i, d in enumerate(getattr(f, "__defaults__", None) or ()):
+        if isinstance(d, _MUT):
+            out[f"{name}:default{i}"] = d
+    for kk, d in (getattr(f, "__kwdefaults__", None) or {}).items():
+        if isinstance(d, _MUT):
+            out[f"{name}:kwdefault:{kk}"] = d
+
+
 def mutable_globals(prefix="rnapolis"):
     out = {}
     for mname, mod in list(sys.modules.items()):
         if mod is None or not (mname == prefix or mname.startswith(prefix + ".")):
             continue
         for k, v in list(vars(mod).items()):
-            if k.startswith("__") or isinstance(v, _SKIP):
+            if k.startswith("__"):
+                continue
+            if isinstance(v, type) and getattr(v, "__module__", None) == mname:
+                # mutable default arguments of methods
+                for ck, cv in list(vars(v).items()):
+                    f = getattr(cv, "__func__", cv)
+                    if isinstance(f, types.FunctionType):
+                        _function_state(f"{mname}.{k}.{ck}", f, out)
+                continue
+            if isinstance(v, types.FunctionType) or hasattr(v, "cache_info"):
+                if getattr(v, "__module__", None) == mname:
+                    _function_state(f"{mname}.{k}", v, out)
+                continue
+            if isinstance(v, _SKIP):
                 continue
             if isinstance(v, (dict, list, set, bytearray)) or type(v).__name__ in ("defaultdict", "deque", "OrderedDict", "Counter"):
                 out[f"{mname}.{k}"] = v
